@@ -101,13 +101,15 @@ func (s *socket) RecvMsg() (*protocol.Message, error) {
 	// For now this uses a simple unified queue for the entire
 	// socket.  Later we can look at moving this to priority queues
 	// based on socket pipes.
+	// The deadline is armed once: a queue resize while we wait must not
+	// start it over.
+	tq := nilQ
 	for {
 		s.Lock()
 		rq := s.recvQ
 		cq := s.closeQ
 		zq := s.sizeQ
-		tq := nilQ
-		if s.recvExpire > 0 {
+		if s.recvExpire > 0 && tq == nil {
 			tq = time.After(s.recvExpire)
 		}
 		s.Unlock()
